@@ -37,11 +37,17 @@ def make_record():
         ("datetime", "dt"), ("path", "p"), ("command", "cmd"), ("digest", "dg"), ("bytes", "b"), ("float", "f"),
         ("boolean", "bo"), ("uri", "u"), ("uint16", "u16"), ("varint", "unset"), ("stringlist", "sl"),
         ("varint[]", "il"),
+        # degenerate values of the field types (empty / zero / the other flavour): what they answer the sentinel may differ
+        ("path", "pe"), ("path", "wp"), ("path", "wpe"), ("string", "se"), ("varint", "z"), ("bytes", "be"), ("string[]", "le"),
+        ("digest", "dge"), ("filesize", "fs"), ("unix_file_mode", "mode"), ("command", "wcmd"), ("float", "fz"), ("boolean", "bf"),
+        ("net.ipaddress", "ip6"),
     ])
+    from flow.record.fieldtypes import command as _command, path as _path
     r = D(num=5, s="abc", ip="10.0.0.1", netw="10.0.0.0/8", lst=["a", "b"],
           dt=_pydt.datetime(2020, 1, 2, 3, 4, 5, tzinfo=_pydt.timezone.utc), p="/tmp/x", cmd="ls -l",
           dg=("d41d8cd98f00b204e9800998ecf8427e", None, None), b=b"xyz", f=1.5, bo=True, u="http://a/b", u16=7,
-          sl=["q"], il=[1, 2], _source="hostB/x", _generated=_pydt.datetime(2020, 1, 1, tzinfo=_pydt.timezone.utc))
+          sl=["q"], il=[1, 2], pe="", wp=_path.from_windows("C:\\a\\b"), wpe=_path.from_windows(""), se="", z=0, be=b"", le=[],
+          fs=0, mode=0o644, wcmd=_command.from_windows("cmd.exe /c x"), fz=0.0, bf=False, ip6="::1", _source="hostB/x", _generated=_pydt.datetime(2020, 1, 1, tzinfo=_pydt.timezone.utc))
     return D, r
 
 
@@ -57,6 +63,10 @@ OTHERS = [
     ("r.u", lambda r: r.u), ("r.u16", lambda r: r.u16), ("r.unset", lambda r: r.unset), ("r.sl", lambda r: r.sl),
     ("r.il", lambda r: r.il), ("r.yy", "MISSING"), ("(r.yy, 1)", "SEQ_WITH_MISSING"), ("[1, r.yy]", "SEQ_WITH_MISSING2"),
     ("[r.ip, 2]", lambda r: [r.ip, 2]),
+    ("r.pe", lambda r: r.pe), ("r.wp", lambda r: r.wp), ("r.wpe", lambda r: r.wpe), ("r.se", lambda r: r.se), ("r.z", lambda r: r.z),
+    ("r.be", lambda r: r.be), ("r.le", lambda r: r.le), ("r.dge", lambda r: r.dge), ("r.fs", lambda r: r.fs),
+    ("r.mode", lambda r: r.mode), ("r.wcmd", lambda r: r.wcmd), ("r.fz", lambda r: r.fz), ("r.bf", lambda r: r.bf),
+    ("r.ip6", lambda r: r.ip6),
 ]
 
 
